@@ -36,6 +36,8 @@ type c14Resp struct {
 	// with a response-level status: a DAV:error holding one condition element and/or a responsedescription
 	ErrCond bool `json:",omitempty"`
 	Desc    bool `json:",omitempty"`
+	// ExtraHref: a status-form response naming a second resource (RFC 4918 14.24: href+ status)
+	ExtraHref bool `json:",omitempty"`
 }
 
 type c14Method struct {
@@ -104,6 +106,9 @@ func c14Doc(resps []c14Resp, syncToken bool) string {
 	for _, r := range resps {
 		re := indep.E(indep.DAV, "response", indep.E(indep.DAV, "href").T(r.Href))
 		if r.Status != 0 {
+			if r.ExtraHref {
+				re.Add(indep.E(indep.DAV, "href").T(r.Href + "-second"))
+			}
 			re.Add(indep.E(indep.DAV, "status").T(statusText(r.Status)))
 			if r.ErrCond {
 				re.Add(indep.E(indep.DAV, "error", indep.E(indep.DAV, "lock-token-submitted", indep.E(indep.DAV, "href").T("/locked"))))
@@ -369,6 +374,8 @@ type scripted struct {
 	Status int
 	CT     string
 	Body   string
+	Split  int               // 1, 2: the DAV and Allow headers arrive on several lines, in two orders
+	Hdr    map[string]string // further response headers
 	mu     sync.Mutex
 	bodies []*c14Body // every response body handed to the library
 }
@@ -393,6 +400,17 @@ func (s *scripted) Do(req *http.Request) (*http.Response, error) {
 	}
 	h.Set("DAV", "1, 3, addressbook, calendar-access")
 	h.Set("Allow", "OPTIONS, PROPFIND")
+	switch s.Split {
+	case 1:
+		h["Dav"] = []string{"1, 3", "addressbook", "calendar-access"}
+		h["Allow"] = []string{"OPTIONS", "PROPFIND"}
+	case 2:
+		h["Dav"] = []string{"addressbook", "calendar-access, 3", "1"}
+		h["Allow"] = []string{"PROPFIND", "OPTIONS"}
+	}
+	for k, v := range s.Hdr {
+		h.Set(k, v)
+	}
 	if s.Status/100 == 3 {
 		h.Set("Location", "http://h/elsewhere")
 	}
@@ -413,11 +431,14 @@ type c14Case struct {
 	BodyID string    `json:"body_id,omitempty"`
 	Resps  []c14Resp `json:"responses,omitempty"`
 	// expectation for placement cases
-	WantErr  bool   `json:"want_err,omitempty"`
-	ZeroResp int    `json:"zero_resp,omitempty"`
-	ZeroProp *qname `json:"zero_prop,omitempty"`
-	Deleted  string `json:"deleted,omitempty"`
-	WantCond string `json:"want_condition,omitempty"` // local name of the DAV:error condition the error must carry
+	WantErr  bool              `json:"want_err,omitempty"`
+	ZeroResp int               `json:"zero_resp,omitempty"`
+	ZeroProp *qname            `json:"zero_prop,omitempty"`
+	Deleted  string            `json:"deleted,omitempty"`
+	WantCond string            `json:"want_condition,omitempty"` // local name of the DAV:error condition the error must carry
+	WantCode int               `json:"want_code,omitempty"`      // HTTP status the error of the failed resource must carry
+	Split    int               `json:"split_headers,omitempty"`
+	Hdr      map[string]string `json:"response_headers,omitempty"`
 }
 
 func c14Run1(m c14Method, sc *scripted) (res interface{}, err error, pan string, hung bool) {
@@ -457,7 +478,7 @@ func davErrorDoc(n int) string {
 }
 
 func c14Judge(m c14Method, c c14Case) (clause, detail string) {
-	sc := &scripted{Status: c.Status, CT: c.CT, Body: c.Body}
+	sc := &scripted{Status: c.Status, CT: c.CT, Body: c.Body, Split: c.Split, Hdr: c.Hdr}
 	if c.Kind == "placement" {
 		sc = &scripted{Status: 207, CT: "application/xml", Body: c14Doc(c.Resps, m.Sync)}
 	}
@@ -480,6 +501,12 @@ func c14Judge(m c14Method, c c14Case) (clause, detail string) {
 		if c.WantErr {
 			if err == nil {
 				return "non-success-status-served-as-valid-data", fmt.Sprintf("result %s", trunc(js(res), 300))
+			}
+			if c.WantCode != 0 {
+				var he *internal.HTTPError
+				if !errors.As(err, &he) || he.Code != c.WantCode {
+					return "resource-error-without-status", fmt.Sprintf("error %q does not carry status %d", err.Error(), c.WantCode)
+				}
 			}
 			if c.WantCond != "" {
 				var de *internal.Error
@@ -603,6 +630,19 @@ func c14HTTPCases(m c14Method, full bool) []c14Case {
 			}
 		}
 	}
+	// the DAV and Allow headers on several lines; entity-tag, date and location headers in unusual forms
+	for sp := 1; sp <= 2; sp++ {
+		out = append(out, c14Case{Method: m.Name, Kind: "http", Status: m.OKStatus, CT: m.OKCT, Body: valid, BodyID: "valid", Split: sp})
+	}
+	for _, et := range []string{`"x"`, `"`, `""`, `W/"x"`, "abc", `'a'`, `"a"b"`, `\`} {
+		out = append(out, c14Case{Method: m.Name, Kind: "http", Status: m.OKStatus, CT: m.OKCT, Body: valid, BodyID: "header-variant", Hdr: map[string]string{"ETag": et}})
+	}
+	for _, lm := range []string{"Sun, 06 Nov 1994 08:49:37 GMT", "garbage", "", "Sun, 06 Nov 1994 08:49:37"} {
+		out = append(out, c14Case{Method: m.Name, Kind: "http", Status: m.OKStatus, CT: m.OKCT, Body: valid, BodyID: "header-variant", Hdr: map[string]string{"Last-Modified": lm, "ETag": `"x"`}})
+	}
+	for _, loc := range []string{"/u/c/k1/stored", "%zz", "http://other/x y", ""} {
+		out = append(out, c14Case{Method: m.Name, Kind: "http", Status: m.OKStatus, CT: m.OKCT, Body: valid, BodyID: "header-variant", Hdr: map[string]string{"Location": loc, "ETag": `"x"`}})
+	}
 	// truncation of the valid body at every offset, for the success status and one error status
 	for _, st := range []int{m.OKStatus, 404} {
 		for k := 1; k < len(valid); k++ {
@@ -688,6 +728,10 @@ func c14PlacementCases(m c14Method, full bool) []c14Case {
 						cond = "lock-token-submitted"
 					}
 					out = append(out, c14Case{Method: m.Name, Kind: "placement", Resps: r, WantErr: true, WantCond: cond})
+					// the same failure reported for two resources in one response
+					r2 := clone(r)
+					r2[ri].ExtraHref = true
+					out = append(out, c14Case{Method: m.Name, Kind: "placement", Resps: r2, WantErr: true, WantCond: cond, WantCode: st})
 				}
 			}
 			for _, st := range respStatuses {
